@@ -53,6 +53,14 @@ TITLES = {
     "C02-r4": "word TEST computes SF as `res > 8000h`: a result of exactly 8000h clears SF",
     "C03-r4": "DAS makes its high-digit test on the AL it was entered with instead of the adjusted AL",
     "C07-r4": "CMPS/SCAS compute OF as `|src - dest| > MAX`: a difference of exactly -128 / -32768 sets OF",
+    "C04-r4": "`xchg word [mem], reg` writes the register back through `separate_bytes` destructured as (lb,hb): bytes swapped",
+    "C05-r4": "`pop word [mem]` advances SP from the physical address instead of SP: wrong for SS with non-zero low 12 bits",
+    "C06-r4": "a taken jump to its own line returns HALT: `d: loop d` stops after one pass",
+    "C08-r4": "a flag instruction that repeats the previously emitted line is dropped: a label between the two lands one instruction late",
+    "C09-r4": "calculate_from_offset wraps with `if addr > MB`: exactly 100000h is returned unchanged and indexes past the memory",
+    "C12-r4": "loader `db \"..\"` strips quotes with trim_matches: a string beginning or ending in a quote loses bytes",
+    "C17-r4": "print's raw_addr reduces with `% 0xFFFFF`: the address FFFFFh becomes 0",
+    "C18-r4": "driver guard for INT 21h is `ah > 2 && ah != 0Ah`: AH=0 is passed to the service and silently ignored",
     "C20-r3": "stepping condition tests `out.code[idx] != \"hlt\"`: a hlt written by the user gets no prompt",
 }
 rows = []
